@@ -4,6 +4,7 @@ import topicname
 import layouts
 import compfacts
 import keepalive
+import serverfacts
 
 GENERATORS = [
     ('Backoff.v', backoff.generate),
@@ -12,6 +13,7 @@ GENERATORS = [
     ('LayoutsOk.v', layouts.generate_ok),
     ('CompFacts.v', compfacts.generate),
     ('KeepAliveFacts.v', keepalive.generate),
+    ('ServerFacts.v', serverfacts.generate),
 ]
 
 if __name__ == '__main__':
